@@ -949,7 +949,11 @@ class Engine:
 
                     # get the time step
                     store, states = self._process_state(path)
-                    process_timestep = process.calculate_timestep(states)
+                    # a process deferred to a later call keeps the timestep
+                    # it requested for the interval it has yet to run
+                    process_timestep = self.front[path].pop('timestep', None)
+                    if process_timestep is None:
+                        process_timestep = process.calculate_timestep(states)
 
                     if force_complete and \
                             process_time + process_timestep > end_time:
@@ -982,6 +986,8 @@ class Engine:
                             self.front[path]['update'] = (EmptyDefer(), store)
                             quiet_paths.append(path)
                     else:
+                        self.front[path]['timestep'] = process_timestep
+
                         # absolute timestep
                         timestep = future - self.global_time
                         full_step = min(full_step, timestep)
